@@ -657,7 +657,7 @@ theorem addOne_cases (num : Nat) (np mp rp : Option Nat) (metrics : Bool) (ver :
     split
     · left; exact ⟨hp.1, hp.2.1, hp.2.2⟩
     · right
-      refine ⟨⟨num, .added, none, np, metP, rpcP, ver⟩, mkDir w1.os num, rfl, rfl, rfl, ?_, ⟨hp.2.1, hp.2.2⟩, rfl⟩
+      refine ⟨⟨num, .added, none, np, metP, rpcP, ver, none⟩, mkDir w1.os num, rfl, rfl, rfl, ?_, ⟨hp.2.1, hp.2.2⟩, rfl⟩
       have h1 : w1.reg = a.w.reg := hp.1
       simp [h1]
 
@@ -812,7 +812,7 @@ theorem decOpt_encOpt (o : Option Nat) (r : List Nat) : decOpt (encOpt o ++ r) =
 theorem decStatus_code (st : Status) : decStatus st.code = some st := by cases st <;> rfl
 
 theorem decSvc_encSvc (s : Svc) (r : List Nat) : decSvc (encSvc s ++ r) = some (s, r) := by
-  obtain ⟨num, st, pid, np, mp, rp, ver⟩ := s
+  obtain ⟨num, st, pid, np, mp, rp, ver, cp⟩ := s
   simp only [encSvc, List.cons_append, List.nil_append, List.append_assoc, decSvc, decStatus_code, decOpt_encOpt]
 
 theorem length_le_encode (l : List Svc) : l.length < (encode l).length := by
@@ -900,8 +900,153 @@ theorem refresh_spec (w : World) (hi : Inv w) :
     have hl : w.os.lookup s.number = none := (noProc_iff_lookup _ _).mp (h2 ▸ h4)
     simp [svcRefresh, hl, h3]
 
+/-! ### Full refresh and outside restarts -/
+
+theorem isInstalled_congr' {os os' : OS} (h : os'.installed = os.installed) (n : Nat) :
+    os'.isInstalled n = os.isInstalled n := by
+  simp [OS.isInstalled, h]
+
+theorem svcRefresh_pidOk (os : OS) (s : Svc) (h : PidOk s) : PidOk (svcRefresh os s) := by
+  unfold svcRefresh
+  split
+  · intro h; simp at h
+  · split
+    · exact h
+    · exact h
+    · exact onStop_pidOk s
+
+theorem svcRefresh_remOk (os : OS) (s : Svc) (h : RemOk os s) : RemOk os (svcRefresh os s) := by
+  unfold svcRefresh
+  split
+  · intro h; simp at h
+  · split
+    · exact h
+    · exact h
+    · intro h; simp [onStop] at h
+
+theorem svcRefresh_good (os : OS) (s : Svc) : Good os (svcRefresh os s) := by
+  unfold svcRefresh
+  split
+  · rename_i p hp
+    intro _
+    exact ⟨p, (lookup_some hp).1, (lookup_some hp).2, rfl⟩
+  · split
+    · rename_i h; intro hr; rw [h] at hr; cases hr
+    · rename_i h; intro hr; rw [h] at hr; cases hr
+    · exact onStop_good _ s
+
+/-- Without a process, a refreshed entry is never Running. -/
+theorem svcRefresh_dead_not_running (os : OS) (s : Svc) (hl : os.lookup s.number = none)
+    (hr : (svcRefresh os s).status = .running) : s.status = .running := by
+  unfold svcRefresh at hr
+  rw [hl] at hr
+  dsimp only at hr
+  split at hr
+  · exact hr
+  · exact hr
+  · simp [onStop] at hr
+
+/-- How the full refresh treats an entry: untouched, or (no process) refreshed as in the partial refresh. -/
+def RefRel (os : OS) (s s' : Svc) : Prop := s' = s ∨ (os.lookup s.number = none ∧ s' = svcRefresh os s)
+
+theorem refreshFull_get (os : OS) (reg : List Svc) (k : Nat) :
+    ((refreshFull os reg).1[k]? = none ∧ reg[k]? = none) ∨
+    ∃ s s', reg[k]? = some s ∧ (refreshFull os reg).1[k]? = some s' ∧ RefRel os s s' := by
+  induction reg generalizing k with
+  | nil => left; simp [refreshFull]
+  | cons s r ih =>
+    unfold refreshFull
+    split
+    · rename_i p hp
+      rw [rpcErrSvc_eq]
+      cases k with
+      | zero => right; exact ⟨s, s, rfl, rfl, Or.inl rfl⟩
+      | succ k =>
+        cases h : r[k]? with
+        | none => left; simp [h]
+        | some t => right; exact ⟨t, t, by simp [h], by simp [h], Or.inl rfl⟩
+    · rename_i hl
+      split
+      rename_i r' f heq
+      have ih' := ih
+      rw [heq] at ih'
+      cases k with
+      | zero => right; exact ⟨s, svcRefresh os s, rfl, rfl, Or.inr ⟨hl, rfl⟩⟩
+      | succ k => simpa using ih' k
+
+theorem refRel_number {os : OS} {s s' : Svc} (h : RefRel os s s') : s'.number = s.number := by
+  rcases h with rfl | ⟨_, rfl⟩
+  · rfl
+  · exact svcRefresh_number _ _
+
+theorem refreshFull_numbers (os : OS) (reg : List Svc) :
+    (refreshFull os reg).1.map (·.number) = reg.map (·.number) := by
+  apply List.ext_getElem?
+  intro k
+  simp only [List.getElem?_map]
+  rcases refreshFull_get os reg k with ⟨h1, h2⟩ | ⟨s, s', h1, h2, h3⟩
+  · rw [h1, h2]
+  · rw [h1, h2]; simp [refRel_number h3]
+
+theorem refreshFull_mem {os : OS} {reg : List Svc} {s' : Svc} (h : s' ∈ (refreshFull os reg).1) :
+    ∃ s ∈ reg, RefRel os s s' := by
+  obtain ⟨k, hk⟩ := List.mem_iff_getElem?.mp h
+  rcases refreshFull_get os reg k with ⟨h1, _⟩ | ⟨s, t, h1, h2, h3⟩
+  · rw [h1] at hk; cases hk
+  · rw [h2] at hk; cases hk
+    exact ⟨s, List.mem_of_getElem? h1, h3⟩
+
+theorem refreshFull_spec (w : World) (hi : Inv w) :
+    Inv ⟨(refreshFull w.os w.reg).1, w.os⟩ ∧ (AllGood w → AllGood ⟨(refreshFull w.os w.reg).1, w.os⟩) ∧
+    (∀ k n, RemovedAt w k n → RemovedAt ⟨(refreshFull w.os w.reg).1, w.os⟩ k n) := by
+  refine ⟨⟨?_, ?_, ?_⟩, ?_, ?_⟩
+  · show ((refreshFull w.os w.reg).1.map (·.number)).Nodup
+    rw [refreshFull_numbers]; exact hi.nodup
+  · intro t ht
+    obtain ⟨s, hs, h⟩ := refreshFull_mem ht
+    rcases h with rfl | ⟨_, rfl⟩
+    · exact hi.pid _ hs
+    · exact svcRefresh_pidOk _ _ (hi.pid s hs)
+  · intro t ht
+    obtain ⟨s, hs, h⟩ := refreshFull_mem ht
+    rcases h with rfl | ⟨_, rfl⟩
+    · exact hi.rem _ hs
+    · exact svcRefresh_remOk _ _ (hi.rem s hs)
+  · intro hg t ht
+    obtain ⟨s, hs, h⟩ := refreshFull_mem ht
+    rcases h with rfl | ⟨_, rfl⟩
+    · exact hg _ hs
+    · exact svcRefresh_good _ _
+  · intro k n ⟨s, h1, h2, h3, h4⟩
+    rcases refreshFull_get w.os w.reg k with ⟨_, h6⟩ | ⟨s0, s', g1, g2, g3⟩
+    · rw [h6] at h1; cases h1
+    · rw [h1] at g1; cases g1
+      refine ⟨s', g2, (refRel_number g3).trans h2, ?_, h4⟩
+      rcases g3 with rfl | ⟨hl, rfl⟩
+      · exact h3
+      · simp [svcRefresh, hl, h3]
+
+theorem osRestart_installed (os : OS) (n : Nat) : (osRestart os n).installed = os.installed := by
+  unfold osRestart; split <;> rfl
+
+theorem osRestart_noProc {os : OS} {n m : Nat} (h : NoProc os n) : NoProc (osRestart os m) n := by
+  unfold osRestart
+  split
+  · exact h
+  · rename_i p hp
+    intro q hq
+    simp only [List.mem_append, List.mem_filter, List.mem_singleton] at hq
+    rcases hq with ⟨hq, _⟩ | rfl
+    · exact h q hq
+    · intro hmn
+      simp only at hmn
+      subst hmn
+      exact h p (lookup_some hp).1 (lookup_some hp).2
+
+/-- Events behind the manager's back (a process dies, or is restarted under a new pid). -/
 def Op.isKill : Op → Bool
   | .kill _ => true
+  | .restartOutside _ => true
   | _ => false
 
 theorem exec_spec (w : World) (op : Op) (hi : Inv w) :
@@ -928,6 +1073,20 @@ theorem exec_spec (w : World) (op : Op) (hi : Inv w) :
   | refresh =>
     have := refresh_spec w hi
     exact ⟨this.1, fun _ _ => this.2.1, this.2.2⟩
+  | refreshFull =>
+    have := refreshFull_spec w hi
+    simp only [exec]
+    exact ⟨this.1, fun _ => this.2.1, this.2.2⟩
+  | restartOutside i =>
+    simp only [exec]
+    split
+    · exact ⟨hi, fun h => by simp [Op.isKill] at h, fun _ _ h => h⟩
+    · refine ⟨⟨hi.nodup, hi.pid, ?_⟩, fun h => by simp [Op.isKill] at h, ?_⟩
+      · intro s hs hr
+        have := hi.rem s hs hr
+        rw [isInstalled_congr' (osRestart_installed _ _)]; exact this
+      · intro k n ⟨s, h1, h2, h3, h4⟩
+        exact ⟨s, h1, h2, h3, osRestart_noProc h4⟩
   | kill i =>
     simp only [exec]
     split
@@ -993,7 +1152,7 @@ theorem addOne_file (num : Nat) (np mp rp : Option Nat) (metrics : Bool) (ver : 
     split
     · left; exact ⟨hp.1, hp.2.2, rfl⟩
     · right
-      exact ⟨⟨num, .added, none, np, metP, rpcP, ver⟩, mkDir w1.os num, rfl, by
+      exact ⟨⟨num, .added, none, np, metP, rpcP, ver, none⟩, mkDir w1.os num, rfl, by
         have h1 : w1.reg = a.w.reg := hp.1
         simp [h1], hp.2.2, rfl, rfl⟩
 
@@ -1184,6 +1343,11 @@ theorem exec_instSub (w : World) (op : Op) (hna : ∀ c np mp rp m v f, op ≠ .
   | upgrade i force start ver ct faults =>
     exact onSvc_instSub w i faults _ (fun s os fx => svcUpgrade_instSub s os fx force start ver ct)
   | refresh => exact InstSub.refl _
+  | refreshFull => exact InstSub.refl _
+  | restartOutside i =>
+    simp only [exec]; split
+    · exact InstSub.refl _
+    · exact InstSub.of_eq (osRestart_installed _ _)
   | kill i => simp only [exec]; split <;> exact InstSub.refl _
   | flaky i on => simp only [exec]; split <;> exact InstSub.refl _
   | saveload => simp only [exec, decode_encode]; exact InstSub.refl _
